@@ -31,8 +31,19 @@ def sticky_exit_status(ctx, rule):
     for bb, kind, obj in ws:
         o = prim._origin_of_def(df, (bb, kind, obj), 8, {status}).strip()
         if o.k == "const":
-            ok = o.a.get("v") == 0 and df.dominates(bb, _first_call(df, C.PROCESS_DIR))
-            ctx.ob(rule, "status-init", ok, "do_find's status is set to the constant %s at %s; only the initial 0 before the first starting point is allowed" % (o.a.get("v"), prim.site(df, bb, obj)), fn=df, where=prim.site(df, bb, obj), how="local writers")
+            v = o.a.get("v")
+            if v == 0:
+                ok = df.dominates(bb, _first_call(df, C.PROCESS_DIR))
+            else:
+                # a failure diagnosed while the command line was read (names in -files0-from that cannot be used): a non-zero
+                # constant, assigned after the last walk, only when the status is still 0 and the parse recorded the failure
+                pd_blocks = [b for b, t in df.calls() if t.callee == C.PROCESS_DIR]
+                after_walks = not any(pb in df.reach_from([bb]) for pb in pd_blocks)
+                atoms = prim.norm_guards(prim.dominating_guards(df, bb))
+                still_zero = prim.atom_holds(atoms, "eq", lambda x: x.strip().k == "var" and x.strip().a.get("local") == status, lambda y: y.strip().k == "const" and y.strip().a.get("v") == 0) is not None
+                flagged = any(at["rel"] == "eq" and any(x.k == "field" and str(x.a) == "files0_invalid_names" for x in at["a"].walk()) and at["b"].strip().a.get("v") is True for at in atoms if at["b"].strip().k == "const")
+                ok = isinstance(v, int) and v != 0 and after_walks and still_zero and flagged
+            ctx.ob(rule, "status-init", ok, "do_find's status is set to the constant %s at %s; oracle: the initial 0 before the first starting point, or a non-zero constant after the last walk when the status is still 0 and -files0-from recorded unusable names" % (v, prim.site(df, bb, obj)), fn=df, where=prim.site(df, bb, obj), how="local writers + dominating guards")
             continue
         # must be the result of process_dir, under a guard that it is non-zero
         from_pd = o.k == "call" and o.a["callee"] == C.PROCESS_DIR or (o.k == "var" and df.local_name(o.a.get("local")) == "dir_ret")
